@@ -1227,6 +1227,12 @@ func (r *Run) opList(op *Op) {
 	if x == nil {
 		r.serverFailure("list.exact", "ListObjects fails "+r.bctx(), "200", resp.String()+" "+resp.Msg)
 	}
+	if !paged {
+		// no max-keys means the protocol's page size: a paginating backend
+		// hands out the first page of a bucket that holds more
+		w := r.expectedListing(b, op.Prefix, op.Delim)
+		paged = r.Plan.Config.Paginates() && len(w.Contents)+len(w.Prefixes) > protocolPage
+	}
 	if paged {
 		r.checkPage(op, x, b, op.Marker, op.HasMk, true)
 		return
@@ -1284,8 +1290,9 @@ func (r *Run) checkFallback(op *Op, x *xListResult, resp *Resp, b *model.Bucket)
 // common prefix that also covers keys <= marker), size <= max.
 func (r *Run) checkPage(op *Op, x *xListResult, b *model.Bucket, marker string, hasMarker bool, clientChosen bool) {
 	got := fromX(x)
-	if op.Max > 0 && len(got.Contents)+len(got.Prefixes) > op.Max {
-		r.fail("page.walk", "a page holds more entries than max-keys "+r.bctx(), fmt.Sprintf("<= %d", op.Max), fmt.Sprint(len(got.Contents)+len(got.Prefixes)))
+	max := pageSize(op)
+	if len(got.Contents)+len(got.Prefixes) > max {
+		r.fail("page.walk", "a page holds more entries than max-keys "+r.bctx(), fmt.Sprintf("<= %d", max), fmt.Sprint(len(got.Contents)+len(got.Prefixes)))
 	}
 	// expected remainder after the marker.  A common prefix that is <= the
 	// marker, or that also rolls up keys <= the marker, may or may not be
@@ -1346,16 +1353,31 @@ func (r *Run) checkPage(op *Op, x *xListResult, b *model.Bucket, marker string, 
 			remaining++
 		}
 	}
-	if op.Max > 0 && len(gotE) < op.Max && remaining > 0 {
-		r.fail("page.walk", "a page after a client-chosen marker is shorter than both max-keys and the remainder "+r.bctx(), fmt.Sprint(want), fmt.Sprint(gotE))
-	}
-	if op.Max == 0 && remaining > 0 {
-		r.fail("page.walk", "an unlimited page after a client-chosen marker omits entries "+r.bctx(), fmt.Sprint(want), fmt.Sprint(gotE))
+	if len(gotE) < max && remaining > 0 {
+		r.fail("page.walk", "a page after a client-chosen marker is shorter than both max-keys and the remainder "+r.bctx(), shortList(fmt.Sprint(want)), shortList(fmt.Sprint(gotE)))
 	}
 	if !x.IsTruncated && remaining > 0 {
 		r.fail("page.walk", fmt.Sprintf("IsTruncated=false although %d entries remain %s", remaining, r.bctx()), "true", "false")
 	}
 	r.ok("page.walk")
+}
+
+// protocolPage is S3's page size: what an absent max-keys means and the most
+// a larger one obtains (the property names the clamp as part of the mechanism).
+const protocolPage = 1000
+
+func pageSize(op *Op) int {
+	if op.Max <= 0 || op.Max > protocolPage {
+		return protocolPage
+	}
+	return op.Max
+}
+
+func shortList(s string) string {
+	if len(s) > 600 {
+		return s[:300] + " ... " + s[len(s)-300:]
+	}
+	return s
 }
 
 // opWalk is a paginated walk following the continuation the server returns.
@@ -1420,8 +1442,8 @@ func (r *Run) opWalk(op *Op) {
 		}
 		pg := fromX(x)
 		n := len(pg.Contents) + len(pg.Prefixes)
-		if op.Max > 0 && n > op.Max {
-			r.fail("page.walk", "a page holds more entries than max-keys "+r.bctx(), fmt.Sprintf("<= %d", op.Max), fmt.Sprint(n))
+		if n > pageSize(op) {
+			r.fail("page.walk", "a page holds more entries than max-keys "+r.bctx(), fmt.Sprintf("<= %d", pageSize(op)), fmt.Sprint(n))
 		}
 		// order across pages
 		var names []string
@@ -1535,6 +1557,17 @@ func (r *Run) fullCheck(clause string) {
 		}
 		if x == nil {
 			r.serverFailure(clause, "listing a bucket fails (full-store check) "+r.bctx(), "200", lresp.String())
+		}
+		// a bucket of more than one protocol page on a paginating backend
+		for pages := 0; x.IsTruncated && len(x.Contents) > 0 && r.Plan.Config.Paginates() && pages < len(keys)/protocolPage+1; pages++ {
+			q := url.Values{}
+			q.Set("marker", x.Contents[len(x.Contents)-1].Key)
+			more, mresp := r.doList(&Op{B: bn}, q)
+			if more == nil {
+				r.serverFailure(clause, "listing a bucket fails (full-store check) "+r.bctx(), "200", mresp.String())
+			}
+			more.Contents = append(x.Contents, more.Contents...)
+			x = more
 		}
 		indet := r.indetKeys(b)
 		got := dropIndet(fromX(x), indet, "", "")
